@@ -16,6 +16,7 @@ import HvTick.Model.Tick
 import HvTick.Model.Ticks
 import HvTick.Model.Loop
 import HvTick.Model.Refs
+import HvTick.Gen.TickEnd
 open HvTick
 
 structure DSt where
@@ -164,6 +165,8 @@ partial def parseLoopNodes (toks : List String) (pos lid : Nat) (inLoop : Bool) 
     | 'T' :: r => match (String.ofList r).toNat? with | some k => cont (.tap k) rest pos lid | none => none
     | 'C' :: r => match (String.ofList r).toInt? with | some k => cont (.cycle pos false k) rest (pos + 1) lid | none => none
     | 'K' :: r => match (String.ofList r).toInt? with | some k => cont (.cycle pos true k) rest (pos + 1) lid | none => none
+    | ['U', p] => if p != 's' && p != 't' then none else cont (.op pos .unique (p == 's') 0) rest (pos + 1) lid
+    | ['E', p] => if p != 's' && p != 't' then none else cont (.op pos .enumerate (p == 's') 0) rest (pos + 1) lid
     | ['[', c] =>
       if c != 'b' && c != 'z' then none else
       let (ex, rest') : Option Bool × List String := match rest with
@@ -173,6 +176,12 @@ partial def parseLoopNodes (toks : List String) (pos lid : Nat) (inLoop : Bool) 
       match parseLoopNodes rest' pos (lid + 1) true with
       | some (body, after, pos', lid') => cont (.loop lid (c == 'z') ex body) after pos' lid'
       | none => none
+    | o :: p :: r =>
+      let kind : Option Loop.OpKind := if o == 'F' then some .fold else if o == 'R' then some .reduce
+        else if o == 'G' then some .foldKeyed else none
+      match kind, (String.ofList r).toNat? with
+      | some k, some t => if p != 's' && p != 't' then none else cont (.op pos k (p == 's') t) rest (pos + 1) lid
+      | _, _ => none
     | _ => none
 
 def parseLoopProg (tags : List String) : Option (List Loop.Node) :=
@@ -183,24 +192,19 @@ def parseLoopProg (tags : List String) : Option (List Loop.Node) :=
 
 def loopFuel : Nat := 100000
 
-def loopAvail : Nat → Loop.RSt → List Int → List Int → Option (Loop.RSt × List Loop.Outs)
-  | 0, _, _, _ => none
-  | n + 1, s, a, b =>
-    match Loop.tickClosure loopFuel s a b with
-    | some (s', o, sched) =>
-      if sched then (loopAvail n s' [] []).map fun r => (r.1, o :: r.2) else some (s', [o])
-    | none => none
+/-- the model follows the two loop-related decisions of `as_code` as the translator found them in the source -/
+def loopCfg : Loop.Cfg := ⟨Gen.schedRootLoopChecksBack, Gen.tickEndCollectedInLoops⟩
 
 def c26Op (st : DSt) (ws : List String) : Option (DSt × String) :=
   match ws, st.loop with
   | ["send", v], some _ => (parseVals v).map fun vs => ({ st with q1 := st.q1 ++ vs }, "ok")
   | ["send2", v], some _ => (parseVals v).map fun vs => ({ st with q2 := st.q2 ++ vs }, "ok")
   | ["tick"], some s =>
-    match Loop.tickClosure loopFuel s st.q1 st.q2 with
+    match Loop.tickClosureWith loopCfg loopFuel s st.q1 st.q2 with
     | some (s', o, _) => some ({ st with loop := some s', q1 := [], q2 := [] }, s!"t={s'.tick} out={showTaps o}")
     | none => some (st, "model-budget-exhausted")
   | ["avail"], some s =>
-    match loopAvail 10000 s st.q1 st.q2 with
+    match Loop.runAvailableWith loopCfg loopFuel 10000 s st.q1 st.q2 with
     | some (s', os) => some ({ st with loop := some s', q1 := [], q2 := [] },
         s!"n={os.length} t={s'.tick} out={"/".intercalate (os.map showTaps)}")
     | none => some (st, "model-budget-exhausted")
